@@ -377,7 +377,7 @@ func (f *tblockFamily) build(m *wb.Module, d tbDesc) *Prog {
 	p.Desc = fmt.Sprintf("%s %s->%s leave=%s", kind, tnames(ps), tnames(rs), mode)
 	p.SigOps = fmt.Sprintf("%s/%s/%s->%s", kind, mode, strings.Trim(tnames(ps), "()"), strings.Trim(tnames(rs), "()"))
 	p.ArgVecs = [][]uint64{{0x1234567, 0x0123456789abcdef, 0}, {0x1234567, 0x0123456789abcdef, 1}, {0xffffffff, 0xfedcba9876543210, 1}}
-	p.Expect = func(args []uint64) []uint64 {
+	p.Expect = func(args, _ []uint64) []uint64 {
 		s := &tbSim{x: uint64(uint32(args[0])), y: args[1], cond: uint64(uint32(args[2]))}
 		tbRun(s, steps)
 		if len(s.stack) != 0 {
